@@ -21,8 +21,10 @@ func main() {
 	flag.Parse()
 	c18work.LoadPhotos(*repo)
 	jobs := c18work.Jobs(*seed, *njobs)
+	// concurrent phase first (cold start), sequential reference afterwards
+	results, bad := c18work.Concurrent(jobs, *k, *reps, *procs, *seed)
 	want := c18work.Sequential(jobs)
-	bad := c18work.Concurrent(jobs, want, *k, *reps, *procs, *seed)
+	bad = append(bad, c18work.Compare(results, want)...)
 	for _, b := range bad {
 		fmt.Println("MISMATCH", b)
 	}
